@@ -400,4 +400,131 @@ Proof.
   - intros m Hm. rewrite nth_mk by lia. reflexivity.
 Qed.
 
+
+(* the model's vrr_prim is that cube with beta m = pref * F_m(T) (fapx is the identity in theorems) *)
+Definition boys_seq (Ax Ay Az Bx By Bz Cx Cy Cz alpha beta : F) : nat -> F :=
+  let p := alpha + beta in
+  let Px := (alpha * Ax + beta * Bx) / p in
+  let Py := (alpha * Ay + beta * By) / p in
+  let Pz := (alpha * Az + beta * Bz) / p in
+  let mu := alpha * beta / p in
+  let ab2 := (Ax - Bx) * (Ax - Bx) + (Ay - By) * (Ay - By) + (Az - Bz) * (Az - Bz) in
+  let pc2 := (Px - Cx) * (Px - Cx) + (Py - Cy) * (Py - Cy) + (Pz - Cz) * (Pz - Cz) in
+  let pref := (1 + 1) * fpi K / p * fexp K (- (mu * ab2)) in
+  fun m => pref * fboys K m (p * pc2).
+
+Lemma vrr_prim_is_cube L Ax Ay Az Bx By Bz Cx Cy Cz alpha beta :
+  (forall x, fapx K x = x) ->
+  vrr_prim K L Ax Ay Az Bx By Bz Cx Cy Cz alpha beta =
+  let p := alpha + beta in
+  let Px := (alpha * Ax + beta * Bx) / p in
+  let Py := (alpha * Ay + beta * By) / p in
+  let Pz := (alpha * Az + beta * Bz) / p in
+  vrr_cube L (Px - Ax) (Px - Cx) (Py - Ay) (Py - Cy) (Pz - Az) (Pz - Cz) ((1 + 1) * p)
+    (boys_seq Ax Ay Az Bx By Bz Cx Cy Cz alpha beta).
+Proof.
+  intros Hapx. rewrite vrr_prim_core. cbv zeta. unfold vrr_cube, boys_seq. cbv zeta.
+  apply mk_ext; intros ax Hax. apply mk_ext; intros ay Hay. apply mk_ext; intros az Haz.
+  rewrite Hapx. do 4 f_equal. apply mk_ext. intros m Hm. now rewrite Hapx.
+Qed.
+
+(* ------------------------------------------------------------------ *)
+(* 4. horizontal transfer                                              *)
+(* ------------------------------------------------------------------ *)
+(* abstract: H(0, a) = T a ; H(b+1, a) = H(b, a+1) + AB H(b, a) *)
+Fixpoint Hf (ab : F) (T : nat -> F) (b a : nat) : F :=
+  match b with O => T a | S b' => Hf ab T b' (S a) + ab * Hf ab T b' a end.
+
+Lemma Hf_ext_local ab (T1 T2 : nat -> F) b : forall a,
+  (forall k, k <= b -> T1 (a + k)%nat = T2 (a + k)%nat) -> Hf ab T1 b a = Hf ab T2 b a.
+Proof.
+  induction b as [|b IH]; intros a H; cbn [Hf].
+  - specialize (H 0%nat ltac:(lia)). now rewrite Nat.add_0_r in H.
+  - rewrite (IH (S a)), (IH a); [reflexivity| |].
+    + intros k Hk. apply H. lia.
+    + intros k Hk. replace (S a + k)%nat with (a + S k)%nat by lia. apply H. lia.
+Qed.
+Lemma Hf_ext ab (T1 T2 : nat -> F) b a : (forall k, T1 k = T2 k) -> Hf ab T1 b a = Hf ab T2 b a.
+Proof. intros H. apply Hf_ext_local. intros; apply H. Qed.
+
+(* the step may equally be applied to the input first (what the list model does) *)
+Lemma Hf_inner ab T b : forall a,
+  Hf ab T (S b) a = Hf ab (fun a' => T (S a') + ab * T a') b a.
+Proof.
+  induction b as [|b IH]; intros a; [reflexivity|].
+  change (Hf ab T (S (S b)) a) with (Hf ab T (S b) (S a) + ab * Hf ab T (S b) a).
+  rewrite (IH (S a)), (IH a). reflexivity.
+Qed.
+
+Definition cget_ax (axis : nat) (t : list (list (list F))) (i x y z : nat) : F :=
+  match axis with O => cget K t i y z | S O => cget K t x i z | _ => cget K t x y i end.
+Definition idx_ax (axis x y z : nat) : nat := match axis with O => x | S O => y | _ => z end.
+
+Lemma hstep_get L axis ab t x y z : x <= L -> y <= L -> z <= L -> idx_ax axis x y z < L ->
+  cget K (hstep K L axis ab t) x y z
+  = cget_ax axis t (S (idx_ax axis x y z)) x y z + ab * cget K t x y z.
+Proof.
+  intros Hx Hy Hz Hi. unfold hstep. unfold cget at 1.
+  rewrite nth_mk by lia. rewrite nth_mk by lia. rewrite nth_mk by lia. cbv zeta.
+  destruct axis as [|[|axis]]; cbn [idx_ax cget_ax] in *.
+  - destruct (Nat.eqb_spec x L); [lia|reflexivity].
+  - destruct (Nat.eqb_spec y L); [lia|reflexivity].
+  - destruct (Nat.eqb_spec z L); [lia|reflexivity].
+Qed.
+
+Lemma nth_hiter_S L axis ab n t b :
+  nth (S b) (hiter K L axis ab (S n) t) [] = nth b (hiter K L axis ab n (hstep K L axis ab t)) [].
+Proof. reflexivity. Qed.
+Lemma hiter_length L axis ab n t : length (hiter K L axis ab n t) = S n.
+Proof. revert t; induction n as [|n IH]; intros t; cbn [hiter length]; [reflexivity|]. now rewrite IH. Qed.
+
+(* entry of the b-th cube of the chain, inside the validity region idx + b <= L of that axis *)
+Theorem hiter_entry L axis ab b : forall n t x y z,
+  b <= n -> x <= L -> y <= L -> z <= L -> (idx_ax axis x y z + b <= L)%nat ->
+  cget K (nth b (hiter K L axis ab n t) []) x y z
+  = Hf ab (fun i => cget_ax axis t i x y z) b (idx_ax axis x y z).
+Proof.
+  induction b as [|b IH]; intros n t x y z Hb Hx Hy Hz Hi.
+  - destruct n; cbn [hiter nth Hf]; destruct axis as [|[|axis]]; reflexivity.
+  - destruct n as [|n]; [lia|]. rewrite nth_hiter_S. rewrite IH by lia.
+    rewrite Hf_inner. apply Hf_ext_local. intros k Hk.
+    destruct axis as [|[|axis]]; cbn [idx_ax cget_ax] in *.
+    + rewrite (hstep_get L 0 ab t (x + k) y z) by (cbn [idx_ax]; lia). reflexivity.
+    + rewrite (hstep_get L 1 ab t x (y + k) z) by (cbn [idx_ax]; lia). reflexivity.
+    + rewrite (hstep_get L (S (S axis)) ab t x y (z + k)) by (cbn [idx_ax]; lia). reflexivity.
+Qed.
+
+Lemma nth_map_in {A B} (f : A -> B) l i d d' : i < length l -> nth i (map f l) d' = f (nth i l d).
+Proof. intros Hi. rewrite (nth_indep _ d' (f d)) by (now rewrite map_length). apply map_nth. Qed.
+
+(* the three chains of hrr: entry [bx][by][bz] (ax, ay, az) *)
+Definition H3 (abx aby abz : F) (T : nat -> nat -> nat -> F) (bx by_ bz ax ay az : nat) : F :=
+  Hf abz (fun z' => Hf aby (fun y' => Hf abx (fun x' => T x' y' z') bx ax) by_ ay) bz az.
+
+Theorem hrr_entry L lb abx aby abz t bx by_ bz ax ay az :
+  bx <= lb -> by_ <= lb -> bz <= lb ->
+  (ax + bx <= L)%nat -> (ay + by_ <= L)%nat -> (az + bz <= L)%nat ->
+  cget K (nth bz (nth by_ (nth bx (hrr K L lb abx aby abz t) []) []) []) ax ay az
+  = H3 abx aby abz (cget K t) bx by_ bz ax ay az.
+Proof.
+  intros Hbx Hby Hbz Hx Hy Hz. unfold hrr, H3.
+  rewrite (nth_map_in _ _ bx (@nil (list (list F)))) by (rewrite hiter_length; lia).
+  rewrite (nth_map_in _ _ by_ (@nil (list (list F)))) by (rewrite hiter_length; lia).
+  rewrite (hiter_entry L 2 abz bz) by (cbn [idx_ax]; lia). cbn [idx_ax cget_ax].
+  apply Hf_ext_local. intros k Hk.
+  rewrite (hiter_entry L 1 aby by_) by (cbn [idx_ax]; lia). cbn [idx_ax cget_ax].
+  apply Hf_ext_local. intros k' Hk'.
+  rewrite (hiter_entry L 0 abx bx) by (cbn [idx_ax]; lia). cbn [idx_ax cget_ax].
+  reflexivity.
+Qed.
+
+(* H3 reads T only at x' <= ax + bx, y' <= ay + by, z' <= az + bz *)
+Lemma H3_ext_local abx aby abz (T1 T2 : nat -> nat -> nat -> F) bx by_ bz ax ay az :
+  (forall x y z, x <= ax + bx -> y <= ay + by_ -> z <= az + bz -> T1 x y z = T2 x y z)%nat ->
+  H3 abx aby abz T1 bx by_ bz ax ay az = H3 abx aby abz T2 bx by_ bz ax ay az.
+Proof.
+  intros H. unfold H3. apply Hf_ext_local; intros k Hk. apply Hf_ext_local; intros k' Hk'.
+  apply Hf_ext_local; intros k'' Hk''. apply H; lia.
+Qed.
+
 End P.
